@@ -52,6 +52,83 @@ def checksum_summary(program):
                     mask = side.value if isinstance(n.op, ast.BitAnd) else side.value - 1
     return {'lo': lo, 'hi': hi, 'mask': mask, 'plain_sum': plain_sum, 'line': fn.lineno}
 
+def checksum_semantics(program, n=20):
+    """utils.calculate_canbus_checksum interpreted on a packet of n symbolic bytes -> {'covered': {position: coefficient}, 'const', 'mod'} or None
+    when the function is not a linear combination of whole bytes (or not interpretable)"""
+    fn = program.fn('utils', 'calculate_canbus_checksum')
+    pk = A.ABytes([A.sym_byte('pk', i) for i in range(n)])
+    try:
+        r = A.Interp(skip=is_logger).call_function(fn, [pk])
+    except (A.Unknown, A.RaiseSignal):
+        return None
+    l = A.as_lin(r) if isinstance(r, (A.AInt, A.ALin)) else None
+    if l is None:
+        return None
+    return {'covered': {k[1]: v for k, v in l.coeffs.items() if isinstance(k, tuple) and k[0] == 'pk'}, 'const': l.const, 'mod': l.mod, 'line': fn.lineno}
+
+def checksum_is_plain_sum_2_19(program):
+    """the property's checksum: (sum of bytes 2..18) mod 256 -- decided on the interpreted function, on 19- and 20-byte arguments; falls back to the
+    syntactic summary when the function is not interpretable.  -> (ok, found)"""
+    found = {}
+    for n in (19, 20):
+        sem = checksum_semantics(program, n)
+        if sem is None:
+            cs = checksum_summary(program)
+            ok = cs['lo'] == 2 and cs['hi'] == 19 and cs['mask'] == 0xff and cs['plain_sum']
+            return (ok if ok else None), {'slice': [cs['lo'], cs['hi']], 'mask': cs['mask'], 'plain_sum': cs['plain_sum'], 'interpretable': False}
+        found[n] = {'covered': sorted(sem['covered']), 'coefficients': sorted(set(sem['covered'].values())), 'const': sem['const'], 'mod': sem['mod']}
+        if not (sorted(sem['covered']) == list(range(2, 19)) and set(sem['covered'].values()) == {1} and sem['const'] == 0 and sem['mod'] == 256):
+            return False, found
+    return True, found
+
+def usb_reader_semantics(program, n=8, head=(0xaa, 0x55), length=20):
+    """NMEA2000Decoder.decode_usb interpreted on a 20-byte packet whose marker and length byte are concrete and whose other bytes are symbols,
+    with utils.calculate_canbus_checksum interpreted too (linear-sum domain).  The comparison of the computed with the stored checksum cannot be
+    decided by the domain: it is answered both ways.  -> {'asked': [(lhs key, rhs key)], 'decoded_when_equal': bool, 'decoded_when_different': bool,
+    'computed_ok': bool, 'stored_ok': bool}; raises A.Unknown when not interpretable"""
+    fn = program.fn('decoder', 'NMEA2000Decoder.decode_usb')
+    utils = {q: f for q, f in program.mod('utils').defs.items() if '.' not in q}
+    pk = A.ABytes(([('c', head[0]), ('c', head[1])] + [A.sym_byte('pk', i) for i in range(2, 9)] + [('c', n)] + [A.sym_byte('pk', i) for i in range(10, max(20, length))])[:length])
+    it0 = A.Interp()
+    want = A.ALin({}, 0)
+    for i in range(2, min(19, len(pk.items))):
+        want = it0.binop(ast.Add(), want, it0.byte_to_int(pk.items[i]))
+    want = it0.binop(ast.Mod(), want, A.AInt(256))
+    stored = A.as_lin(it0.byte_to_int(pk.items[19])) if len(pk.items) > 19 else A.ALin({}, 0)
+    out = {'asked': []}
+    for mode in ('equal', 'different'):
+        reached = []
+        asked = []
+        def oracle(op, a, b, node, mode=mode, asked=asked):
+            asked.append((a, b))
+            eq = mode == 'equal'
+            return eq if isinstance(op, ast.Eq) else not eq
+        def hook(it, call, env):
+            name = ast.unparse(call.func)
+            if name.endswith('._extract_header'):
+                return (A.sym_int('H.pgn', 18), A.sym_int('H.src', 8), A.sym_int('H.dst', 8), A.sym_int('H.prio', 3))
+            if name == 'self._decode':
+                reached.append(True)
+                return A.AOpaque('message')
+            if name in ('datetime.now', 'datetime.strptime', 'timedelta', 'binascii.hexlify'):
+                return A.AOpaque(name)
+            return NotImplemented
+        it = A.Interp(hook=hook, skip=is_logger, functions=utils, cmp_oracle=oracle)
+        try:
+            it.call_function(fn, [A.AObj(), pk])
+        except A.RaiseSignal:
+            pass
+        out['decoded_when_' + mode] = bool(reached)
+        out['asked'] = asked or out['asked']
+        out['asked_' + mode] = len(asked)
+    def norm(l):
+        return l.key() if l.mod is not None else A.ALin({k: v % 256 for k, v in l.coeffs.items()}, l.const % 256, 256).key()
+    sides = [(norm(a), norm(b)) for a, b in out['asked']]
+    w, st = norm(want), norm(stored)
+    out['compares_sum_2_18_with_byte_19'] = any({x, y} == {w, st} for x, y in sides)
+    out['described'] = [f"{a!r} vs {b!r}" for a, b in out['asked']][:3]
+    return out
+
 def make_message():
     return A.AObj(PGN=A.sym_int('pgn', 18), source=A.sym_int('src', 8), destination=A.sym_int('dst', 8), priority=A.sym_int('prio', 3),
                   id=A.AOpaque('id'), fields=A.AOpaque('fields'))
